@@ -102,21 +102,25 @@ def fault_site_sweep(chk: Check) -> None:
     }
 
 
-def all_paths_sweep(chk: Check) -> None:
+def all_paths_sweep(chk: Check, only: Any = None, max_paths: int = 100000) -> None:
+    """`only`: restrict to these contracts (quick tier: a slice of the contracts with >= 2
+    subroutines, whole-contract function first, then every other path, and the reverse)."""
     ctx = chk.ctx
     rng = random.Random("paths:%d" % chk.seed)
     specs: List[Dict[str, Any]] = []
     idx = 0
     total_paths = 0
     for cid in sorted(ctx.paths):
+        if only is not None and cid not in only:
+            continue
         if cid not in ctx.contracts and cid not in ctx.bad_inputs:
             continue
-        paths = ctx.paths[cid]
+        paths = ctx.paths[cid][:max_paths]
         if len(paths) < 1:
             continue
         total_paths += len(paths)
         orders = [list(paths), list(reversed(paths))]
-        for _ in range(2):
+        for _ in range(2 if only is None else 0):
             p = list(paths)
             rng.shuffle(p)
             orders.append(p)
